@@ -147,6 +147,9 @@ type c02Case struct {
 	LastFault int64     `json:"tfault"` // virtual ms of the last fault applied
 	DataOK   bool       `json:"data_ok"`
 	Interval int64      `json:"interval_ms"`
+	NoBackoff bool      `json:"no_backoff"`
+	SilenceUntil int64  `json:"silence_until"`
+	SilenceTo string    `json:"silence_to"`
 }
 
 func c02Recs(d vDatagram, cidLen int) []c02Rec {
@@ -183,9 +186,25 @@ func (r *c02Runner) logEmissions(cause string) {
 	}
 }
 
-func runC02(t *testing.T, v c02Variant, mask []string, interval time.Duration, seedSession bool) c02Case {
+// c02Opt: timing configuration and blanket faults of one run.
+type c02Opt struct {
+	Interval     time.Duration // initial retransmit interval (0 = default 1 s)
+	NoBackoff    bool
+	SilenceUntil time.Duration // drop every datagram addressed to SilenceTo until this virtual time
+	SilenceTo    string        // "client", "server" or "both"
+	Limit        time.Duration // give up after this much virtual time (0 = 400 s)
+}
+
+func runC02(t *testing.T, v c02Variant, mask []string, opt c02Opt) c02Case {
 	t.Helper()
-	res := c02Case{Kind: "c02", Variant: v.Name, Mask: mask, Interval: interval.Milliseconds()}
+	interval := opt.Interval
+	res := c02Case{
+		Kind: "c02", Variant: v.Name, Mask: mask, Interval: interval.Milliseconds(), NoBackoff: opt.NoBackoff,
+		SilenceUntil: opt.SilenceUntil.Milliseconds(), SilenceTo: opt.SilenceTo,
+	}
+	if res.Interval == 0 {
+		res.Interval = 1000
+	}
 	var cs, ss *c02Store
 	if v.Stores {
 		cs, ss = newC02Store(), newC02Store()
@@ -205,6 +224,7 @@ func runC02(t *testing.T, v c02Variant, mask []string, interval time.Duration, s
 	if interval > 0 {
 		ccfg.FlightInterval, scfg.FlightInterval = interval, interval
 	}
+	ccfg.DisableRetransmitBackoff, scfg.DisableRetransmitBackoff = opt.NoBackoff, opt.NoBackoff
 	lab := newLab(t, ccfg, scfg)
 	defer lab.close()
 	cidLen := 0
@@ -227,7 +247,11 @@ func runC02(t *testing.T, v c02Variant, mask []string, interval time.Duration, s
 		r.logEmissions("deliver")
 	}
 	next := 0
-	deadline := time.Now().Add(400 * time.Second)
+	limit := opt.Limit
+	if limit == 0 {
+		limit = 400 * time.Second
+	}
+	deadline := time.Now().Add(limit)
 	for {
 		synctest.Wait()
 		r.logEmissions("timer")
@@ -237,6 +261,9 @@ func runC02(t *testing.T, v c02Variant, mask []string, interval time.Duration, s
 			act := "pass"
 			if d.Idx < len(mask) {
 				act = mask[d.Idx]
+			}
+			if lab.Net.now() < opt.SilenceUntil && (opt.SilenceTo == "both" || opt.SilenceTo == d.To) {
+				act = "drop"
 			}
 			switch {
 			case act == "pass":
@@ -386,7 +413,7 @@ func TestVerifC02(t *testing.T) {
 	for _, j := range jobs {
 		j := j
 		var res c02Case
-		vBubble(t, func(t *testing.T) { res = runC02(t, j.v, j.mask, 0, false) })
+		vBubble(t, func(t *testing.T) { res = runC02(t, j.v, j.mask, c02Opt{}) })
 		out.emit(res)
 	}
 }
